@@ -99,14 +99,24 @@ def _history_job(args):
             if o1 != o2 or o3 != o3_fresh:
                 viol.append((dict(nodes=nodes, edges=edges, spec=rules._jsonable_spec(p[1]), first=o1[0], second=o2[0], other_arch=o3[0], other_arch_fresh=o3_fresh[0]),
                              "re-applying the same rule object gives a different outcome", {"kind": "reapply"}))
-        # permutations of list-valued arguments
+        # permutations of list-valued arguments (all 12 shapes and the two aliases; also a parent listed with its own sub module)
+        perm_inputs = []
         if fp is not None:
-            (sk, S), (ok, O) = fp
-            for spec in rules.all_shapes(*fp)[:12]:
+            perm_inputs.append(fp)
+        nested = [(a, b) for a in nodes for b in nodes if a != "r" and b.startswith(a + ".")]
+        if nested:
+            a, b = rng.choice(nested)
+            others = [x for x in nodes if x not in (a, b, "r")]
+            perm_inputs.append(((rng.choice(["named", "sub"]), [b, a] + others[:1]), (rng.choice(["named", "sub"]), others[1:2] or [a])))
+        for fpx in perm_inputs:
+            (sk, S), (ok, O) = fpx
+            for spec in rules.all_shapes(*fpx):
                 base = rules.run_rule(rules.build_rule(spec), shared)
                 for Sp in list(itertools.permutations(S))[:6]:
                     for Op in list(itertools.permutations(O))[:6]:
-                        s2 = dict(spec, subj=(sk, list(Sp) + [Sp[0]]), obj=(ok, list(Op)))
+                        s2 = dict(spec, subj=(sk, list(Sp) + [Sp[0]]))
+                        if spec.get("obj") is not None:
+                            s2["obj"] = (ok, list(Op))
                         out = rules.run_rule(rules.build_rule(s2), shared)
                         n_eval += 1
                         if out != base:
